@@ -793,6 +793,39 @@ func c09Decl(c *Ctx) {
 	for _, t := range c09dFiletypeNearMisses {
 		nms = append(nms, nm{"filetype", t, t})
 	}
+	// the dimension counters of the grammar are int16: 32767 array dimensions are the most a type can
+	// have, and a typed map's MapDim is one more than its inner array dimension (e6bd8cc: 32767 inner
+	// dimensions wrapped MapDim to -32768 and the formatter printed the member as plain `int`)
+	for _, n := range []int{32766, 32767} {
+		nms = append(nms, nm{"struct", "struct S(map<int" + strings.Repeat("[]", n) + "> a,)", ""})
+		nms = append(nms, nm{"struct", "struct S(int" + strings.Repeat("[]", n+1) + " a,)", ""})
+	}
+	for i := range nms {
+		if nms[i].wrapped == "" {
+			nms[i].wrapped = nms[i].text
+			// property monitor on the real code: if the parser accepts the text, formatting keeps the type
+			text := nms[i].text
+			if d0 := c09dDumpStruct(c, text); d0 != "none" && d0 != "other" {
+				out, _, pan := c09Format([]byte(text), "dims.mro")
+				if d1 := c09dDumpStruct(c, out); pan != "" || d1 != d0 {
+					short := text
+					if len(short) > 60 {
+						short = text[:30] + "…(" + strconv.Itoa(len(text)) + " bytes)…" + text[len(text)-20:]
+					}
+					if len(d0) > 80 {
+						d0 = d0[:80] + "…"
+					}
+					if len(d1) > 80 {
+						d1 = d1[:80] + "…"
+					}
+					r.violate(Violation{Kind: "property", Key: "C09:ast-changed:type-dimension-overflow",
+						What:  "a type at the limit of the grammar's int16 dimension counters is accepted by the parser and changed by the formatter",
+						Input: map[string]interface{}{"text": short, "bytes": len(text)}, Impl: d1 + pan, Expect: d0,
+						Broken: "C09 monitor: formatting keeps every declaration"})
+				}
+			}
+		}
+	}
 	wrap := func(block string) string { return "stage S(\n" + block + "\n    src py \"x\",\n)\n" }
 	for _, t := range c09dParamNearMisses {
 		nms = append(nms, nm{"params", t, wrap(t)})
